@@ -5,7 +5,7 @@ obligation streams by position and rewrites the dict literals in the rule module
 import ast, importlib, os, re, subprocess, sys, json
 VERIF = os.path.dirname(os.path.dirname(os.path.abspath(__file__)))
 sys.path.insert(0, VERIF)
-MODS = {'c08': 'AUDIT', 'c09': 'PO5_AUDIT', 'c11': 'AUDIT', 'c12': 'AUDIT', 'c19': 'PO6_AUDIT'}
+MODS = {'c08': 'AUDIT', 'c09': 'PO5_AUDIT', 'c11': 'AUDIT', 'c12': 'AUDIT', 'c19': 'PO6_AUDIT', 'c14': 'round2:PO8_AUDIT'}
 
 WORKER = r'''
 import sys, json
@@ -27,7 +27,7 @@ for m in %r:
     mod = importlib.import_module('rules.' + m)
     r = Rec()
     mod.run(facts, r, {'flavor': 'dev', 'tier': 'quick'})
-    out[m] = [c for c in r.calls if c[1].startswith('PO-')]
+    out[m] = [c for c in r.calls if c[1].startswith('PO-') and not (m == 'c10')]
 print(json.dumps(out))
 '''
 
@@ -54,7 +54,10 @@ for m, var in MODS.items():
                 mapping[k0].append(k1)
         elif ka == 'bad':
             print('old scheme already bad:', m, keya)
-    mod = importlib.import_module('rules.' + m)
+    holder = m
+    if ':' in var:
+        holder, var = var.split(':')
+    mod = importlib.import_module('rules.' + holder)
     table = getattr(mod, var)
     newtable = {}
     for k, v in table.items():
@@ -66,7 +69,7 @@ for m, var in MODS.items():
             if nk in newtable and newtable[nk] != v:
                 print('MERGED', m, nk)
             newtable[nk] = v
-    path = os.path.join(VERIF, 'rules', m + '.py')
+    path = os.path.join(VERIF, 'rules', holder + '.py')
     src = open(path).read()
     tree = ast.parse(src)
     node = [n for n in tree.body if isinstance(n, ast.Assign) and any(isinstance(t, ast.Name) and t.id == var for t in n.targets)][0]
